@@ -190,6 +190,17 @@ V: List[Tuple[str, str, str, str, Any, Any, Optional[str]]] = [
     ("C08", "content length synced under the gate", "preserving", S + "dependencies.py", "            response.content = render_dependencies(response.content, type=\"document\")\n\n        return response", "            response.content = render_dependencies(response.content, type=\"document\")\n            if response.has_header(\"Content-Length\"):\n                response[\"Content-Length\"] = str(len(response.content))\n\n        return response", None),
     ("C08", "latin-1 round trip around the insertion", "breaking", S + "dependencies.py", "            content_ = maybe_transformed.encode(\"utf-8\", errors=\"surrogateescape\")", "            content_ = maybe_transformed.encode(\"latin-1\")", "S4"),
     ("C19", "timeout moved under OPTIONS", "breaking", S + "cache.py", "                    \"TIMEOUT\": None,  # No timeout\n", "", "S7"),
+    ("C09", "quote test in a temporary", "preserving", S + "util/template_parser.py", "            if token.token_type == TokenType.BLOCK and (\"'\" in token.contents or '\"' in token.contents):", "            has_quote = \"'\" in token.contents or '\"' in token.contents\n            if token.token_type == TokenType.BLOCK and has_quote:", None),
+    ("C09", "quoted tags skipped inside comment blocks", "breaking", S + "util/template_parser.py", ("            if token.token_type == TokenType.BLOCK and (\"'\" in token.contents or '\"' in token.contents):", "    resolved_tokens: List[Token] = []\n"), ("            if token.token_type == TokenType.BLOCK and not in_comment and (\"'\" in token.contents or '\"' in token.contents):", "    resolved_tokens: List[Token] = []\n    in_comment = False\n"), "S17"),
+    ("C12", "last attribute tested by truthiness of the list", "preserving", S + "util/template_tag.py", "    last_token = attrs[-1].value if len(attrs) else None", "    last_token = attrs[-1].value if attrs else None", None),
+    ("C12", "first entry of the last attribute", "breaking", S + "util/template_tag.py", "    last_token = attrs[-1].value if len(attrs) else None", "    last_token = attrs[-1].value.entries[0] if len(attrs) else None", "S14"),
+    ("C18", "clear without the lock", "breaking", S + "util/cache.py", "    def clear(self) -> None:\n        with self._lock:\n            self._clear()", "    def clear(self) -> None:\n        self._clear()", "S10"),
+    ("C11", "keyword-ness by truthiness", "breaking", S + "util/template_tag.py", "        if param.key is None:", "        if not param.key:", "S11"),
+    ("C15", "built-in names protected by default", "breaking", S + "library.py", "    protected_tags = getattr(lib, \"_protected_tags\", [])", "    protected_tags = getattr(lib, \"_protected_tags\", PROTECTED_TAGS)", "S11"),
+    ("C15", "empty tuple as the fallback", "preserving", S + "library.py", "    protected_tags = getattr(lib, \"_protected_tags\", [])", "    protected_tags = getattr(lib, \"_protected_tags\", ())", None),
+    ("C16", "css dict rewritten in place again", "breaking", S + "component_media.py", "        media.css = {  # type: ignore[assignment]\n            media_type: list(map(map_fn, path_list)) for media_type, path_list in media.css.items()\n        }", "        for media_type, path_list in media.css.items():\n            media.css[media_type] = list(map(map_fn, path_list))", "S7"),
+    ("C08", "marker pattern eats the whitespace behind it", "breaking", S + "dependencies.py", "(?P<data>[\\w\\-,/]+?)\\s+-->\")", "(?P<data>[\\w\\-,/]+?)\\s+-->\\s*\")", "S18"),
+    ("C19", "fallback to the class source when the entry is gone", "breaking", S + "dependencies.py", "    content = get_script_content(script_type, comp_cls, input_hash)\n    if content is None:\n        raise RuntimeError(", "    content = get_script_content(script_type, comp_cls, input_hash)\n    if content is None and input_hash is None:\n        content = comp_cls.js if script_type == \"js\" else comp_cls.css\n    if content is None:\n        raise RuntimeError(", "S16"),
     ("C19", "comment", "preserving", S + "dependencies.py", "    script = get_script_content(script_type, comp_cls, input_hash)\n    if script is None:", "    script = get_script_content(script_type, comp_cls, input_hash)  # from the media cache\n    if script is None:", None),
 ]
 
